@@ -165,8 +165,9 @@ def h_coverage(ctx, cfg):
     log = []
     scorer = _recording_scorer(ctx, core, log, lambda k: 1.0 + k)
     holders = []
+    shared = ctx.rng("R")  # one generator object serves every chunk call of the round: its state differs from call to call
     for c in range(n_chunks):
-        holders.append(sm.score_chunk(scorer, None, screen, None, rng=ctx.rng("R"), n_chunks=n_chunks, chunk_index=c,
+        holders.append(sm.score_chunk(scorer, None, screen, None, rng=shared, n_chunks=n_chunks, chunk_index=c,
                                       batch_plate_ids=list(batch) if batch else None))
     want = sorted(p for p in rows_of if p not in obs_ids and p not in batch)
     got = sorted(k for k, _ in log)
